@@ -212,6 +212,7 @@ func short(b []byte) string {
 func decodeCase(why string, kinds []int, str bool, in []byte, mustFail bool, emit bool) {
 	c.Obs.Evaluations++
 	js := caseJS{Mode: 0, Kinds: kinds, Str: str, Input: in, Why: why}
+	lastJS = js
 	status, vals, rest := decodeSeq(kinds, str, in)
 	c.Count(fmt.Sprintf("decode:%s:status=%d", why, status))
 	sh, ix := -1, 0
@@ -260,6 +261,7 @@ func decodeCase(why string, kinds []int, str bool, in []byte, mustFail bool, emi
 func encodeCase(why string, vals []val, trail []byte, emit bool) []byte {
 	c.Obs.Evaluations++
 	js := caseJS{Mode: 1, Vals: vals, Trail: trail, Why: why}
+	lastJS = js
 	if !emit { // huge values: keep the replay small
 		js.Vals = nil
 		js.Why = why + fmt.Sprintf(" (len=%d)", len(vals[0].B))
@@ -430,8 +432,20 @@ func randVal(r *hx.Rand) val {
 	return v
 }
 
+// safetyNet turns a panic that escaped a per-case wrapper into an oracle violation and
+// still writes obs.json (a harness crash must never hide the failing input).
+func safetyNet() {
+	if v := recover(); v != nil {
+		c.Violate("panic-outside-case-wrapper", fmt.Sprintf("a call into the implementation panicked outside a case wrapper: %v", v), -1, 0, lastJS)
+		c.Finish()
+	}
+}
+
+var lastJS interface{}
+
 func main() {
 	c = hx.Start("C20", "Run.Check_C20", 800)
+	defer safetyNet()
 	var rp caseJS
 	if c.LoadReplay(&rp) {
 		if rp.Mode == 0 {
@@ -547,11 +561,27 @@ func main() {
 		for i := 0; i < 40; i++ {
 			c.Obs.Evaluations++
 			in := r.Bytes(r.Intn(48))
+			if i < 8 {
+				in = r.Bytes([]int{0, 15, 16, 17, 31, 32, 33, 47}[i])
+			}
 			fa, fb = bin.Int128{}, bin.Int256{}
-			e1 := a.Decode(&bin.Buffer{Buf: append([]byte{}, in...)})
-			e2 := fa.Decode(&bin.Buffer{Buf: append([]byte{}, in...)})
-			e3 := b2.Decode(&bin.Buffer{Buf: append([]byte{}, in...)})
-			e4 := fb.Decode(&bin.Buffer{Buf: append([]byte{}, in...)})
+			var e1, e2, e3, e4 error
+			djs := caseJS{Mode: 0, Kinds: []int{kInt128}, Input: in, Why: "dirty-receiver"}
+			if p, _ := hx.Recover(func() {
+				e1 = a.Decode(&bin.Buffer{Buf: append([]byte{}, in...)})
+				e2 = fa.Decode(&bin.Buffer{Buf: append([]byte{}, in...)})
+			}); p {
+				c.Violate("decode-panic", fmt.Sprintf("Int128.Decode of %s panicked", short(in)), -1, 0, djs)
+				continue
+			}
+			djs.Kinds = []int{kInt256}
+			if p, _ := hx.Recover(func() {
+				e3 = b2.Decode(&bin.Buffer{Buf: append([]byte{}, in...)})
+				e4 = fb.Decode(&bin.Buffer{Buf: append([]byte{}, in...)})
+			}); p {
+				c.Violate("decode-panic", fmt.Sprintf("Int256.Decode of %s panicked", short(in)), -1, 0, djs)
+				continue
+			}
 			c.Count("dirty-receiver:int128/int256")
 			if (e1 == nil) != (e2 == nil) || (e3 == nil) != (e4 == nil) || (e1 == nil && a != fa) || (e3 == nil && b2 != fb) {
 				c.Violate("dirty-receiver-differs", fmt.Sprintf("Int128/Int256.Decode of %s into a used value differs from a fresh value", short(in)), -1, 0, caseJS{Mode: 0, Kinds: []int{kInt128}, Input: in, Why: "dirty-receiver"})
